@@ -637,7 +637,7 @@ func drive(o hx.RunOpts) error {
 		return err
 	}
 
-	n := o.N(350, 5000)
+	n := o.N(350, 2000)
 	for i := 0; i < n; i++ {
 		q := p.Fork()
 		if err := runCase(newMem(), "mem", func(r *runner) { r.program(q, o.Thorough(), 4+q.Intn(10)) }); err != nil {
@@ -645,7 +645,7 @@ func drive(o hx.RunOpts) error {
 		}
 	}
 	// infs-backed store (one writing transaction per case, committed at the end)
-	n = o.N(6, 120)
+	n = o.N(6, 80)
 	for i := 0; i < n; i++ {
 		q := p.Fork()
 		b, err := newInfs(ctx)
